@@ -369,7 +369,9 @@ func (g *gen) response(code int) *node {
 		if g.r.Chance(1, 6) {
 			// accepted by the builder; the example generator of the serialisers cannot handle it
 			g.feat("regex-without-example")
-			nd.body = []string{g.r.Pick([]string{`/[^\x00-\x7F]/`, `/[\x{10000}-\x{10FFFF}]/`})}
+			// (the last three fail or succeed depending on the draws of the example generator, which is
+			// kept per schema and advanced by every call: seeded change C06-s)
+			nd.body = []string{g.r.Pick([]string{`/[^\x00-\x7F]/`, `/[\x{10000}-\x{10FFFF}]/`, `/([^\x00-\x7F]+|abc)/`, `/x[^\x00-\x7F]?/`, `/(a|[^\x00-\x7F])(b|[^\x00-\x7F])?c/`})}
 		}
 	case k < 7:
 		g.feat("resp-headers")
